@@ -398,6 +398,29 @@ pub(crate) fn ct_array32_maybe_set<const N: usize>(a: &mut [i32; N], b: &[i32; N
     }
 }
 
+/// Verification hooks: public access to the masked swap / assign helpers
+#[cfg(feature = "verif-hooks")]
+pub mod verif {
+    use super::Choice;
+
+    /// see `ct_array64_maybe_swap_with`
+    pub fn array64_maybe_swap<const N: usize>(a: &mut [u64; N], b: &mut [u64; N], c: Choice) {
+        super::ct_array64_maybe_swap_with(a, b, c)
+    }
+    /// see `ct_array32_maybe_swap_with`
+    pub fn array32_maybe_swap<const N: usize>(a: &mut [i32; N], b: &mut [i32; N], c: Choice) {
+        super::ct_array32_maybe_swap_with(a, b, c)
+    }
+    /// see `ct_array64_maybe_set`
+    pub fn array64_maybe_set<const N: usize>(a: &mut [u64; N], b: &[u64; N], c: Choice) {
+        super::ct_array64_maybe_set(a, b, c)
+    }
+    /// see `ct_array32_maybe_set`
+    pub fn array32_maybe_set<const N: usize>(a: &mut [i32; N], b: &[i32; N], c: Choice) {
+        super::ct_array32_maybe_set(a, b, c)
+    }
+}
+
 #[cfg(test)]
 mod tests {
     use super::*;
